@@ -72,9 +72,11 @@ def decode(name, v):
     if t == "int":
         return v if isinstance(v, int) and not isinstance(v, bool) else "?" + type(v).__name__
     want = {"bool": bool, "str": str, "float": float, "list": list}[t]
-    if type(v) is not want or v not in CODEBOOK[t]:
+    # exact type and exact repr: -0.0 is not 0.0, [1.0, 2.0] / [True, 2] / (1, 2) are not [1, 2]
+    reprs = [repr(x) for x in CODEBOOK[t]]
+    if type(v) is not want or repr(v) not in reprs:
         return "?" + repr(v)[:30]
-    return CODEBOOK[t].index(v)
+    return reprs.index(repr(v))
 
 
 def _dflt(rng, name, base):
@@ -306,7 +308,7 @@ def abbrev_cases(rng, n):
     lb = {"name": "Adam", "leaves": [["lrd", 10], ["beta", 20]], "subs": []}
     lc = {"name": "Big", "leaves": [["width", 5]], "subs": [
         {"f": "optimizer", "default": "sgd", "dkind": "key", "alts": [["sgd", {"kind": "type", "dc": la, "ov": []}],
-                                                                      ["adam", {"kind": "partial", "dc": lb, "ov": [["beta", 21]]}]]}]}
+                                                                      ["adam", {"kind": "partial", "dc": lb, "ov": [["beta", 0]]}]]}]}
     out = []
     for default in ("small", "big", None):
         tree = {"name": "Cfg", "leaves": [["seed", 0]], "subs": [
@@ -319,6 +321,10 @@ def abbrev_cases(rng, n):
                 out.append({"kind": "sg", "tree": tree, "toks": [_tok("abbr", dest=m, v=key, cut=cut, via={})]})
                 out.append({"kind": "sg", "tree": tree, "toks": [_tok("choose", dest=m, key="big"), _tok("abbr", dest=m, v=key, cut=cut, via={})]})
                 out.append({"kind": "sg", "tree": tree, "toks": [_tok("abbr", dest=m, v=key, cut=cut, via={}), _tok("choose", dest=m, key="small")]})
+        # an abbreviation that repeats the exact choice, next to a partial with a falsy keyword: nothing wrong here, but any
+        # other defect showing up in this neighbourhood must not be taken for the abbreviation finding
+        out.append({"kind": "sg", "tree": tree, "toks": [_tok("choose", dest=m, key="big"), _tok("choose", dest=m + ".optimizer", key="adam"),
+                                                        _tok("abbr", dest=m, v="big", cut=1, via={})]})
         # abbreviated leaf of the chosen group; abbreviated nested subgroup option
         out.append({"kind": "sg", "tree": tree, "toks": [_tok("choose", dest=m, key="small"), _tok("abbr", dest=m + ".momentum", v="7", cut=4, via={m: "small"})]})
         out.append({"kind": "sg", "tree": tree, "toks": [_tok("choose", dest=m, key="big"), _tok("abbr", dest=m + ".optimizer", v="adam", cut=3, via={m: "big"})]})
@@ -582,12 +588,41 @@ def cmd_source(case):
 _CLS = {}
 
 
+_NS = [None]      # the namespace in which the current case's classes were declared (class IDENTITY is judged against it)
+
+
 def _build(src, name):
     if src not in _CLS:
         ns = {}
         exec(compile(src, "<c07>", "exec", dont_inherit=True), ns)
         _CLS[src] = ns
+    _NS[0] = _CLS[src]
+    try:
+        from implutil import set_current_ns
+        set_current_ns(_CLS[src])
+    except ImportError:
+        pass
     return _CLS[src][name]
+
+
+def _cname(obj):
+    """the declared class, by identity: a same-named class from anywhere else is not the chosen type"""
+    c = type(obj)
+    if _NS[0] is not None and _NS[0].get(c.__name__) is c:
+        return c.__name__
+    return f"?foreign:{c.__module__}.{c.__qualname__}"
+
+
+def _streams(r):
+    """a rejection is argparse's error: status, message on stderr, nothing on stdout"""
+    if r[0] != "exit":
+        return []
+    out = []
+    if len(r) > 3 and r[3]:
+        out.append("stdout-on-rejection")
+    if r[1] != 0 and not (len(r) > 2 and r[2]):
+        out.append("rejection-without-message")
+    return out
 
 
 class _Recorder:
@@ -709,7 +744,7 @@ def _value_of(obj):
             subs.append([f.name, _value_of(v)])
         else:
             leaves.append([f.name, decode(f.name, v)])
-    return {"c": type(obj).__name__, "l": leaves, "s": subs}
+    return {"c": _cname(obj), "l": leaves, "s": subs}
 
 
 def _early(kind, r):
@@ -772,7 +807,8 @@ def _run_sg_inner(case):
         def go():
             holder["p"] = p = _fresh(cls)
             ns = p.parse_args(list(argv))
-            return {"v": _value_of(getattr(ns, ROOT)), "sub": sorted([k, v] for k, v in getattr(ns, "subgroups", {}).items()),
+            return {"v": _value_of(getattr(ns, ROOT)), "sub": sorted([str(k), v if type(v) is str else "?" + type(v).__name__]
+                                                                         for k, v in getattr(ns, "subgroups", {}).items()),
                     "extra": sorted(k for k in vars(ns) if k not in (ROOT, "subgroups"))}
         r = outcome_of(go)
     p = holder.get("p")
@@ -797,7 +833,7 @@ def _run_sg_inner(case):
     obs = r[:2]
     if obs[0] == "ok" and not isinstance(obs[1], dict):
         obs = ["raise", "NotADict"]
-    return {"obs": obs, "msg": (r[2][-160:] if len(r) > 2 and isinstance(r[2], str) else ""), "table": sorted(seen.items()),
+    return {"obs": obs, "stream": _streams(r), "msg": (r[2][-160:] if len(r) > 2 and isinstance(r[2], str) else ""), "table": sorted(seen.items()),
             "setup_done": done, "stable": stable, "toks": toks, "argv": argv, "skipped": skipped, "rounds": len(rec.calls)}
 
 
@@ -845,7 +881,7 @@ def _run_cmd_inner(case):
     pinv = {o: n for n, os_ in ptab.items() for o in os_}
     chosen = stabs.get(case["name"], {}) if case["name"] is not None else {}
     sinv = {o: n for n, os_ in chosen.items() for o in os_}
-    return {"obs": r[:2], "msg": (r[2][-160:] if len(r) > 2 and isinstance(r[2], str) else ""),
+    return {"obs": r[:2], "stream": _streams(r), "msg": (r[2][-160:] if len(r) > 2 and isinstance(r[2], str) else ""),
             "ptab": sorted([o, n] for o, n in pinv.items()),
             "stabs": sorted([name, sorted([o, n] for n, os_ in t.items() for o in os_)] for name, t in stabs.items()),
             "before": [[o, v, pinv.get(o)] for o, v in before], "after": [[o, v, sinv.get(o)] for o, v in after], "argv": argv}
@@ -986,6 +1022,8 @@ def _pretty(v):
 def py_spec(case, obs):
     if obs.get("stage") == "declaration":
         return f"declaring the classes / setting up a parser for them ended with {obs['obs']} {obs['msg'][:120]}"
+    if obs.get("stream"):
+        return f"argv {obs['argv']}: rejected, but not the way argparse rejects: {obs['stream']}"
     if _silent(case, obs):
         return None
     e = _expect(case, obs)
@@ -1018,6 +1056,35 @@ def _loose(case, obs):
     return case["kind"] == "sg" and any(t["k"] == "abbr" for t in obs["toks"])
 
 
+def _abbrev_sg_toks(case, obs):
+    """written options that are not a registered spelling but a proper prefix of a registered spelling of the subgroup field
+    they denote"""
+    regs = [(o_, d) for d, os_ in obs["table"] for o_ in os_]
+    known = {o_ for o_, _ in regs}
+    return [t for t in obs["toks"] if t["o"] not in known and t["intent"] is not None and _is_sg_dest(case["tree"], t["intent"])
+            and any(o_.startswith(t["o"]) and d == t["intent"] for o_, d in regs)]
+
+
+def _abbrev_evidence(case, obs):
+    """The listed finding and nothing else: the VALUE is exactly what the specification demands of the command line with the
+    abbreviated subgroup options left out (the pre-pass, allow_abbrev=False, did not see them), and `subgroups` reports, for
+    those destinations, the last key the main parser read (exact or abbreviated) and the chosen key everywhere else."""
+    o = obs["obs"]
+    ab = _abbrev_sg_toks(case, obs)
+    if not ab or o[0] != "ok":
+        return False
+    rest = [t for t in obs["toks"] if t not in ab]
+    e = spec_sg(case["tree"], [(t["intent"], t["v"]) for t in rest])
+    if e[0] != "be" or o[1]["v"] != e[1]:
+        return False
+    want = dict((d, k) for d, k in e[2])
+    for d in {t["intent"] for t in ab}:
+        if d not in want:
+            return False
+        want[d] = [t["v"] for t in obs["toks"] if t["intent"] == d][-1]
+    return o[1]["sub"] == sorted([d, k] for d, k in want.items())
+
+
 def _feature(case, obs):
     o = obs["obs"]
     if o[0] not in ("ok", "exit"):
@@ -1032,7 +1099,10 @@ def _feature(case, obs):
             if t["o"] not in regs and any(r.startswith(t["o"]) for r in regs):
                 hit = [d for d, os_ in obs["table"] for r in os_ if r.startswith(t["o"])]
                 is_sg = any(_is_sg_dest(case["tree"], d) for d in hit)
-                return "abbreviated-subgroup-option" if is_sg else "abbreviated-leaf-option"
+                if not is_sg:
+                    return "abbreviated-leaf-option"
+                # the listed finding only with its own evidence; the same symptom from any other cause is reported
+                return "abbreviated-subgroup-option" if _abbrev_evidence(case, obs) else "abbreviated-subgroup-option-unexplained"
     return "plain"
 
 
@@ -1143,7 +1213,7 @@ def _cobs(o, with_sub):
 
 def to_coq(case, obs):
     o = obs["obs"]
-    extra = cstrlist(o[1].get("extra", [])) if o[0] == "ok" else "[]"
+    extra = cstrlist((o[1].get("extra", []) if o[0] == "ok" else []) + obs.get("stream", []))
     if case["kind"] == "sg":
         tb = clist([cpair(cstr(o_), cpath(d)) for d, os_ in obs["table"] for o_ in os_])
         toks = clist([cpair(cpair(cstr(t["o"]), cstr(t["v"])), copt(cpath(t["intent"])) if t["intent"] is not None else "None")
